@@ -12,38 +12,24 @@ import re
 
 import yaml
 
-import yatiml
-from yatiml.loader import Loader
+from yv import spec12
 
 TAGP = 'tag:yaml.org,2002:'
 
 
-# -- raw composition (yatiml's resolver, no yatiml processing) ---------------
-RawLoader = type('RawLoader', (Loader,), {
-    '_registered_classes': {}, '_additional_classes': {},
-    'get_single_node': yaml.SafeLoader.get_single_node,
-    'get_node': yaml.SafeLoader.get_node})
-
-
-# composition proper is PyYAML's (anchors and aliases stay shared nodes),
-# whatever the Loader under test overrides
-for _n, _f in vars(yaml.composer.Composer).items():
-    if callable(_f) and not _n.startswith('__'):
-        setattr(RawLoader, _n, _f)
+# -- raw composition: PyYAML's parser and composer with the reference resolver
+# (yv.spec12), nothing of yatiml: what the harness believes a document to be
+# must not depend on the Loader under test --------------------------------------
+class RawLoader(yaml.SafeLoader):
+    resolve = spec12.resolve
 
 
 def compose_raw(text):
     return yaml.compose(text, Loader=RawLoader)
 
 
-_resolver = None
-
-
 def resolve_plain(text):
-    global _resolver
-    if _resolver is None:
-        _resolver = RawLoader('')
-    return _resolver.resolve(yaml.ScalarNode, text, (True, False))
+    return spec12.resolve_plain(text)
 
 
 def plain(node, _stack=None):
@@ -229,17 +215,10 @@ def tree_size(t):
 
 # -- restyling through PyYAML's serializer ------------------------------------
 class _StyleDumper(yaml.SafeDumper):
-    pass
-
-
-_StyleDumper.yaml_implicit_resolvers = None
+    resolve = spec12.resolve
 
 
 def _style_dumper():
-    if _StyleDumper.yaml_implicit_resolvers is None:
-        inst = RawLoader('')
-        _StyleDumper.yaml_implicit_resolvers = {
-            k: list(v) for k, v in inst.yaml_implicit_resolvers.items()}
     return _StyleDumper
 
 
